@@ -112,7 +112,17 @@ def c03(ctx, res):
                         "domain: the text key and attribute keys hold non-nil scalars; a single top-level key is a valid element name"]
 
 
+def c04(ctx, res):
+    t = "quick" if ctx.quick else "thorough"
+    for fam in ("order", "attrs", "extras"):
+        ctx.gen_replay(res, "seq", "MC_C04.tla", "MC_C04_%s_%s.cfg" % (fam, t), procs=8)
+    res.assumptions += ["documents start with the root element (a leading declaration or comment is the documented NoRoot result, covered by C15)",
+                        "domain: text first in its element, at most one comment / directive / processing instruction per element",
+                        "encoding/xml RawToken as tokenizer of the indented outputs"]
+
+
 PROPS = {
+    "C04": c04,
     "C02": c02,
     "C03": c03,
     "C01": c01,
